@@ -64,7 +64,9 @@ Next ==
             /\ Step(r, MRem(dict, r.k.id)) /\ UNCHANGED <<rid, typ, limit>>
             /\ (StrictA /\ r.res.class = "ok" => r.res.kv = r.k.id)
        [] r.ev = "MPop" ->
-            /\ (StrictA => r.res.class = "ok" /\ r.res.seq = PopSeq(Canonical(dict)))
+            /\ (StrictA => /\ r.res.class = "ok" /\ Len(r.res.seq) = 2 * Len(dict)
+                            /\ {<<r.res.seq[2 * i - 1], r.res.seq[2 * i]>> : i \in 1..Len(dict)} = Pairs(dict)
+                            /\ (CheckOrder => r.res.seq = PopSeq(Canonical(dict))))      \* reverse canonical order: C13
             /\ dict' = (IF StrictA THEN <<>> ELSE ObsDict(r)) /\ UNCHANGED <<rid, typ, limit>>
        [] r.ev = "MSetType" ->
             /\ (StrictA => r.res.class = "ok")
